@@ -69,6 +69,13 @@ class Connection:
     name = self.get(self.__class__.NAME_FIELD)
     if name is None or gfapy.is_placeholder(name):
       return
+    if not isinstance(name, str) and \
+        self.__class__.STORAGE_KEY == "name":
+      # (checked here, before anything is changed: see _register_line)
+      raise gfapy.TypeError(
+        "The identifier of a line must be a string\n"+
+        "Line: {}\n".format(str(self))+
+        "Identifier: {}".format(repr(name)))
     name = str(name)
     def mentions(ref):
       if isinstance(ref, list):
